@@ -55,6 +55,21 @@ def _reader_structure(p: Program, rep: Report):
         r = p.resolve_call(f_u, c)
         if isinstance(r, tuple) and r[0] == "ext" and "unquote" in r[1]:
             unq = r[1]
+        elif isinstance(f, ast.Name):
+            # the unquoter bound to a local once (`unquote = http_cookies._unquote`, hoisted out of the loop) and called by that name
+            for a_ in ast.walk(f_u.node):
+                if isinstance(a_, ast.Assign) and len(a_.targets) == 1 and isinstance(a_.targets[0], ast.Name) and a_.targets[0].id == f.id and isinstance(a_.value, (ast.Attribute, ast.Name)):
+                    others = [b_ for b_ in ast.walk(f_u.node) if isinstance(b_, (ast.Assign, ast.AugAssign, ast.AnnAssign)) and b_ is not a_
+                              and any(isinstance(t_, ast.Name) and t_.id == f.id for t_ in (b_.targets if isinstance(b_, ast.Assign) else [b_.target]))]
+                    if others:
+                        continue
+                    fake = ast.copy_location(ast.Call(func=a_.value, args=c.args, keywords=c.keywords), c)
+                    try:
+                        r2 = p.resolve_call(f_u, fake)
+                    except Exception:
+                        r2 = None
+                    if isinstance(r2, tuple) and r2[0] == "ext" and "unquote" in r2[1]:
+                        unq = r2[1]
     return fn, pair_sep, kv_sep, maxsplit, strip_args, unq
 
 
